@@ -27,7 +27,8 @@ def mut_ops():
     ops = []
     for a in LISTS:
         for b in LISTS + [4, 7]:
-            ops.append("API push %d %d" % (a, b))
+            if not (b in LISTS and b <= a):      # a list is pushed only onto a list created before it: no cycles
+                ops.append("API push %d %d" % (a, b))
             ops.append("API append %d %d" % (a, b))
         ops.append("API cdr %d" % a)
         ops.append("API deepcopy %d" % a)
@@ -44,7 +45,7 @@ def generate(tier, seed):
         lim = 2500 if tier == "quick" else 60000
         if len(allseq) > lim: allseq = rng.sample(allseq, lim)
         seqs += [list(x) for x in allseq]
-    more = ops + ["API push 7 4", "API append 7 3", "API push 4 1", "API append 5 3", "API cons 3 0", "API car 3", "API cddr 3", "API cadr 3",
+    more = ops + ["API push 7 4", "API append 7 3", "API push 4 1", "API append 5 3", "API cons 3 0", "API append 3 3", "API append 0 0", "API car 3", "API cddr 3", "API cadr 3",
                   "API caar 3", "API cdar 7", "API caddr 3", "API car 4", "API cdr 5", "API fromiter 1 2 4", "API list 3 3", "API list", "API eq 3 3",
                   "API equal 3 7", "API eq 0 8", "API len 3", "API len 4"]
     for _ in range(400 if tier == "quick" else 8000):
@@ -55,7 +56,9 @@ def generate(tier, seed):
             o = rng.choice(more)
             # sometimes target a handle created during the sequence
             if rng.random() < 0.3 and nh > 9 and o.split()[1] in ("push", "append", "cdr", "car", "deepcopy", "len"):
-                parts = o.split(); parts[2] = str(rng.randint(9, nh - 1)); o = " ".join(parts)
+                parts = o.split(); parts[2] = str(rng.randint(9, nh - 1))
+                if parts[1] == "push": parts[3] = "4"       # only an atom is pushed onto a sub-list (no cycles)
+                o = " ".join(parts)
             sq.append(o)
             if o.split()[1] in ("cdr", "car", "deepcopy", "cddr", "cadr", "caar", "cdar", "caddr", "fromiter", "list", "cons"): nh += 1
         seqs.append(sq)
